@@ -103,6 +103,17 @@ def _res(f):
         return [1, core.canon_code(core.classify_exception(e))]
 
 
+def _unpack(cls, octs):
+    """K.unpack from bytes or -- every third input, and half of the inputs of 512 octets or more -- from a bytearray
+    (a receive buffer) that is overwritten after the call: the decoded object must not depend on it any more"""
+    if (len(octs) + sum(octs[:8])) % 3 and not (len(octs) >= 512 and sum(octs[:8]) % 2):
+        return cls.unpack(bytes(octs))
+    buf = bytearray(octs)
+    p = cls.unpack(buf)
+    buf[:] = b"\xa5" * len(buf)
+    return p
+
+
 def _fin_n(a):
     return a[4][0] if len(a) > 4 and a[4] else 0
 
@@ -201,14 +212,14 @@ def impl(op, a):
     if op == 1341:
         return [list(_fin(a)[0].pack())]
     if op == 1342:
-        return _fin_fields(FinishedPdu.unpack(bytes(a[0])))
+        return _fin_fields(_unpack(FinishedPdu, a[0]))
     if op == 1343:
-        return [list(FinishedPdu.unpack(bytes(a[0])).pack())]
+        return [list(_unpack(FinishedPdu, a[0]).pack())]
     if op == 1344:
         p = _fin(a)[0]
         b = p.pack()
         ex = a[5 + _fin_n(a):]
-        p2 = FinishedPdu.unpack(bytes(b) + bytes(ex[0] if ex else []))
+        p2 = _unpack(FinishedPdu, list(b) + list(ex[0] if ex else []))
         return [_res(lambda: [p2 == p]), _res(p2.pack)] + _fin_fields(p2)
     if op == 1345:
         p = _fin(a)[0]
@@ -235,14 +246,14 @@ def impl(op, a):
     if op == 1351:
         return [list(_md(a)[0].pack())]
     if op == 1352:
-        return _md_fields(MetadataPdu.unpack(bytes(a[0])))
+        return _md_fields(_unpack(MetadataPdu, a[0]))
     if op == 1353:
-        return [list(MetadataPdu.unpack(bytes(a[0])).pack())]
+        return [list(_unpack(MetadataPdu, a[0]).pack())]
     if op == 1354:
         p = _md(a)[0]
         b = p.pack()
         ex = a[6 + _md_n(a):]
-        p2 = MetadataPdu.unpack(bytes(b) + bytes(ex[0] if ex else []))
+        p2 = _unpack(MetadataPdu, list(b) + list(ex[0] if ex else []))
         return [[int(p2 == p)], _res(p2.pack)] + _md_fields(p2)
     if op == 1355:
         p = _md(a)[0]
@@ -600,6 +611,83 @@ def streams(tier, rng):
         a = [ids, flags, [4, 0, 1], [0], [n]] + [big_resp] * n
         cases.append((1340, a))
     yield "length_limit", "exact", cases
+    # 7b. size sweeps (every value of each length-carrying field; packet lengths across every multiple of 256 up to
+    #     ~1300; names ending in a 4-octet UTF-8 sequence; 0x80 / 0xFF octets in TLV values)
+    def _nm(n):
+        if n >= 4 and rng.random() < 0.5:
+            return h8.rname(rng, n - 4) + rng.choice([c for c in h8.CH if len(c) == 4])
+        return h8.rname(rng, n)
+    def _val(n):
+        return [rng.choice([0x00, 0x80, 0xFF, rng.randrange(256)]) for _ in range(n)]
+    cases = []
+    for n in range(0, 257):                      # source / destination name length
+        for which in ((3, 4) if big or n > 250 else (3 + n % 2,)):
+            ids, flags = _rand_conf(rng)
+            a = [ids, flags, [rng.randrange(2), rng.choice(CSTYPES), _rand_fsize(rng, flags[1])], [1] + _nm(rng.choice([0, 1, 7])),
+                 [1] + _nm(rng.choice([0, 1, 7])), [0, 0]]
+            a[which] = [1] + _nm(n)
+            cases.append((1354, a + [[]]))
+            if n > 250:
+                cases.append((1350, a)); cases.append((1351, a))
+    for n in range(0, 257):                      # option value length; number of options
+        ids, flags = _rand_conf(rng)
+        a = [ids, flags, [0, 0, 5], [1, 0x61], [1, 0x62], [1, 1], [rng.choice(h8.TLV_TYPES)] + _val(n)]
+        cases.append((1354, a + [[]]))
+        if n > 250:
+            cases.append((1350, a)); cases.append((1351, a))
+        if big or n <= 40 or n % 32 in (31, 0, 1):
+            ids, flags = _rand_conf(rng)
+            a = [ids, flags, [0, 0, 5], [1, 0x61], [1, 0x62], [1, n]] + [[rng.choice(h8.TLV_TYPES)] + _val(rng.choice([0, 0, 1])) for _ in range(n)]
+            cases.append((1354, a + [[]]))
+    for k in range(0, 5):                        # total length: k options of 257 octets + a name of n octets
+        for n in range(k % 7, 256, 1 if big else 7):
+            ids, flags = _rand_conf(rng)
+            a = [ids, flags, [1, 3, 5], [1] + _nm(n), [1, 0x62], [1, k]] + [[2] + _val(255) for _ in range(k)]
+            cases.append((1354, a + [[]]))
+    # the same sweep around every multiple of 256 / 512 of the packet length up to 1300 (+-8)
+    for target in range(256, 1301, 256):
+        for d in range(-8, 9):
+            ids, flags = _rand_conf(rng)
+            hl = 4 + 2 * ids[1] + ids[5]
+            fixed = hl + 1 + 1 + (8 if flags[1] else 4) + 1 + 1 + (2 if flags[2] else 0)     # with empty names, no options
+            rest = target + d - fixed
+            k = max(0, (rest - 200)) // 257
+            rest -= 257 * k
+            if rest < 0:
+                continue
+            sn = min(rest, 255); dn = min(rest - sn, 255)
+            a = [ids, flags, [1, 3, 5], [1] + _nm(sn), [1] + _nm(dn), [1, k]] + [[2] + _val(255) for _ in range(k)]
+            cases.append((1354, a + [[]]))
+    yield "exh_sizes_metadata", "exact", cases
+    cases = []
+    for n in range(0, 257):                      # fault-location length; first-name length of one response
+        ids, flags = _rand_conf(rng)
+        a = [ids, flags, [rng.choice([4, 6, 15]), 0, 1], [1] + _val(n), [0]]
+        cases.append((1344, a + [[]]))
+        if n > 250:
+            cases.append((1340, a)); cases.append((1341, a))
+        if n <= 252 and (big or n % 2 or n > 240):
+            ids, flags = _rand_conf(rng)
+            r = [0, 0, n, 0] + _nm(n)
+            a = [ids, flags, [rng.choice([0, 4]), 1, 2], _rand_fault(rng), [1], r]
+            cases.append((1344, a + [[]]))
+    for n in list(range(0, 34)) + [63, 64, 65, 127, 128, 129] + ([255, 256, 257] if big else []):      # number of responses
+        ids, flags = _rand_conf(rng)
+        a = [ids, flags, [4, 0, 1], _rand_fault(rng), [n]] + [_rand_resp(rng, True) for _ in range(n)]
+        cases.append((1344, a + [[]]))
+    for target in range(256, 1301, 256):         # packet length +-8 around every multiple of 256
+        for d in range(-8, 9):
+            ids, flags = _rand_conf(rng)
+            hl = 4 + 2 * ids[1] + ids[5]
+            rest = target + d - (hl + 2 + (2 if flags[2] else 0))
+            resps = []
+            while rest >= 5:
+                n = min(rest - 5, 240)
+                resps.append([0, 0, n, 0] + _nm(n)); rest -= 5 + n
+            fault = [1] + _val(rest - 2) if rest >= 2 else [0]
+            a = [ids, flags, [4, 0, 1], fault, [len(resps)]] + resps
+            cases.append((1344, a + [[]]))
+    yield "exh_sizes_finished", "exact", cases
     # 8. random PDUs: pack, round trip, round trip with look-alike suffixes, decode of layout ++ suffix
     cases = []
     for _ in range(6000 if big else 900):
